@@ -159,9 +159,16 @@ func (x *Exec) doCallWith(st *State, fi int, c *ssa.CallCommon, site ssa.Instruc
 		argVals["recv"] = fv
 	}
 	x.ghostAtX(st, fi, anchor, "before", nil, argVals)
+	step := fi == 0 && x.isStep(anchor)
+	if step {
+		x.ginvBefore(st, fi, anchor)
+	}
 	k0 := k
 	k = func(st2 *State, res Value) {
 		x.ghostAtX(st2, fi, anchor, "", &res, argVals)
+		if step {
+			x.ginvAfter(st2, fi, anchor, site)
+		}
 		k0(st2, res)
 	}
 	// panic continuation: unwind the calling frame
